@@ -1,10 +1,61 @@
+//! A recording `WalletWrite` used to reach the batched scanning path (`scan_cached_blocks`) and
+//! `Nullifiers::unspent` through public API. Derived from `MockWalletDb` in
+//! zcash_client_backend::data_api::testing (all methods inert) with five methods overridden:
+//! the viewing keys, the prior block metadata and the tracked nullifiers are served from
+//! fields, and `put_blocks` records what it is given.
+#![allow(unused_imports, dead_code)]
+use std::{
+    collections::{HashMap, HashSet},
+    num::NonZeroU32,
+};
+use secrecy::{ExposeSecret, SecretVec};
+use zcash_transparent::address::TransparentAddress;
+use zcash_client_backend::{
+    data_api::{
+        chain::ChainState,
+        error::{LockError, RewindError},
+        locking::LockOwner,
+        scanning::{ScanPriority, ScanRange},
+        wallet::{ConfirmationsPolicy, TargetHeight},
+        Account, AccountBalance, AccountBirthday, AccountMeta, AccountPurpose, AccountSource,
+        AddressInfo, BlockMetadata, DecryptedTransaction, NullifierQuery, OutputLockStore,
+        ReceivedTransactionOutput, ScannedBlock, SeedRelevance, SentTransaction,
+        TransactionDataRequest, TransactionStatus, TransactionsInvolvingAddress,
+        TransparentBalances, WalletRead, WalletSummary, WalletWrite, Zip32Derivation,
+    },
+    wallet::{NoteId, OutputRef, TransparentAddressMetadata, WalletTransparentOutput},
+};
+use zcash_keys::{
+    address::UnifiedAddress,
+    keys::{UnifiedAddressRequest, UnifiedFullViewingKey, UnifiedSpendingKey},
+};
+use zcash_primitives::{
+    block::BlockHash,
+    transaction::{Transaction, TxId},
+};
+use zcash_protocol::{
+    consensus::{self, BlockHeight},
+    memo::Memo,
+};
+use zip32::DiversifierIndex;
+
+pub struct Spy {
+    pub ufvks: HashMap<u32, UnifiedFullViewingKey>,
+    pub prior: Option<BlockMetadata>,
+    pub nf_sapling: Vec<(u32, sapling::Nullifier)>,
+    pub nf_orchard: Vec<(u32, orchard::note::Nullifier)>,
+    pub nf_ironwood: Vec<(u32, orchard::note::Nullifier)>,
+    pub captured: Vec<ScannedBlock<u32>>,
+    pub put_calls: usize,
+}
+
 impl WalletRead for Spy {
     type Error = ();
     type AccountId = u32;
     type Account = (Self::AccountId, UnifiedFullViewingKey, BlockHeight);
 
     fn get_account_ids(&self) -> Result<Vec<Self::AccountId>, Self::Error> {
-        Ok(self.account_ids.clone())
+        Ok(self.ufvks.keys().copied().collect())
     }
 
     fn get_account(
@@ -12,7 +63,7 @@ impl WalletRead for Spy {
         account_id: Self::AccountId,
     ) -> Result<Option<Self::Account>, Self::Error> {
         Ok(self
-            .ufvks_by_account
+            .ufvks
             .get(&account_id)
             .cloned()
             .map(|ufvk| (account_id, ufvk, BlockHeight::from(1))))
@@ -48,11 +99,8 @@ impl WalletRead for Spy {
     }
 
     fn list_addresses(&self, account: Self::AccountId) -> Result<Vec<AddressInfo>, Self::Error> {
-        Ok(self
-            .addresses_by_account
-            .get(&account)
-            .cloned()
-            .unwrap_or_default())
+        let _ = account;
+        Ok(vec![])
     }
 
     fn find_account_for_address<P: consensus::Parameters>(
@@ -100,7 +148,7 @@ impl WalletRead for Spy {
     }
 
     fn block_metadata(&self, _height: BlockHeight) -> Result<Option<BlockMetadata>, Self::Error> {
-        Ok(None)
+        Ok(self.prior)
     }
 
     fn block_fully_scanned(&self) -> Result<Option<BlockMetadata>, Self::Error> {
@@ -133,7 +181,7 @@ impl WalletRead for Spy {
     fn get_unified_full_viewing_keys(
         &self,
     ) -> Result<HashMap<Self::AccountId, UnifiedFullViewingKey>, Self::Error> {
-        Ok(HashMap::new())
+        Ok(self.ufvks.clone())
     }
 
     fn get_memo(&self, _id_note: NoteId) -> Result<Option<Memo>, Self::Error> {
@@ -148,26 +196,23 @@ impl WalletRead for Spy {
         &self,
         _query: NullifierQuery,
     ) -> Result<Vec<(Self::AccountId, sapling::Nullifier)>, Self::Error> {
-        Ok(Vec::new())
+        Ok(self.nf_sapling.clone())
     }
 
-    #[cfg(feature = "orchard")]
     fn get_orchard_nullifiers(
         &self,
         _query: NullifierQuery,
     ) -> Result<Vec<(Self::AccountId, orchard::note::Nullifier)>, Self::Error> {
-        Ok(Vec::new())
+        Ok(self.nf_orchard.clone())
     }
 
-    #[cfg(feature = "orchard")]
     fn get_ironwood_nullifiers(
         &self,
         _query: NullifierQuery,
     ) -> Result<Vec<(Self::AccountId, orchard::note::Nullifier)>, Self::Error> {
-        Ok(Vec::new())
+        Ok(self.nf_ironwood.clone())
     }
 
-    #[cfg(feature = "transparent-inputs")]
     fn get_transparent_receivers(
         &self,
         _account: Self::AccountId,
@@ -177,7 +222,6 @@ impl WalletRead for Spy {
         Ok(HashMap::new())
     }
 
-    #[cfg(feature = "transparent-inputs")]
     fn get_transparent_balances(
         &self,
         _account: Self::AccountId,
@@ -187,7 +231,6 @@ impl WalletRead for Spy {
         Ok(HashMap::new())
     }
 
-    #[cfg(feature = "transparent-inputs")]
     fn get_transparent_address_metadata(
         &self,
         _account: Self::AccountId,
@@ -196,7 +239,6 @@ impl WalletRead for Spy {
         Ok(None)
     }
 
-    #[cfg(feature = "transparent-inputs")]
     fn utxo_query_height(&self, _account: Self::AccountId) -> Result<BlockHeight, Self::Error> {
         Ok(BlockHeight::from(0u32))
     }
@@ -257,7 +299,7 @@ impl WalletWrite for Spy {
     ) -> Result<(<Self as WalletRead>::AccountId, UnifiedSpendingKey), <Self as WalletRead>::Error>
     {
         let account = zip32::AccountId::ZERO;
-        UnifiedSpendingKey::from_seed(&self.network, seed.expose_secret(), account)
+        UnifiedSpendingKey::from_seed(&zcash_protocol::consensus::Network::TestNetwork, seed.expose_secret(), account)
             .map(|k| (u32::from(account), k))
             .map_err(|_| ())
     }
@@ -291,24 +333,6 @@ impl WalletWrite for Spy {
         todo!()
     }
 
-    #[cfg(feature = "transparent-key-import")]
-    fn import_standalone_transparent_pubkey(
-        &mut self,
-        _account: <Self as WalletRead>::AccountId,
-        _address: secp256k1::PublicKey,
-    ) -> Result<(), <Self as WalletRead>::Error> {
-        todo!()
-    }
-
-    #[cfg(feature = "transparent-key-import")]
-    fn import_standalone_transparent_script(
-        &mut self,
-        _account: <Self as WalletRead>::AccountId,
-        _script: script::Redeem,
-    ) -> Result<(), <Self as WalletRead>::Error> {
-        todo!()
-    }
-
     fn get_next_available_address(
         &mut self,
         _account: <Self as WalletRead>::AccountId,
@@ -330,8 +354,10 @@ impl WalletWrite for Spy {
     fn put_blocks(
         &mut self,
         _from_state: &ChainState,
-        _blocks: Vec<ScannedBlock<<Self as WalletRead>::AccountId>>,
+        blocks: Vec<ScannedBlock<<Self as WalletRead>::AccountId>>,
     ) -> Result<(), <Self as WalletRead>::Error> {
+        self.put_calls += 1;
+        self.captured.extend(blocks);
         Ok(())
     }
 
@@ -402,7 +428,6 @@ impl WalletWrite for Spy {
         Ok(0)
     }
 
-    #[cfg(feature = "transparent-inputs")]
     fn reserve_next_n_ephemeral_addresses(
         &mut self,
         _account_id: <Self as WalletRead>::AccountId,
@@ -412,7 +437,6 @@ impl WalletWrite for Spy {
         Err(())
     }
 
-    #[cfg(feature = "transparent-inputs")]
     fn reserve_next_n_internal_addresses(
         &mut self,
         _account_id: <Self as WalletRead>::AccountId,
@@ -430,7 +454,6 @@ impl WalletWrite for Spy {
         Ok(())
     }
 
-    #[cfg(feature = "transparent-inputs")]
     fn notify_address_checked(
         &mut self,
         _request: TransactionsInvolvingAddress,
